@@ -15,9 +15,10 @@ VALID = ['B1', 'B2', 'N1', 'S', 'V', 'P', 'NB', 'x1', 'x2', 'x3', 'y1',
          'x1/y1', 'x1/y0', 'x1²', 'vt', 'st', 'n1', 'n1/x0', 'x1dup', '?query']
 INVALID = ['!dupsym', '!dupsym2', '!empty', '!nonstr', '!S2', '!V2',
            '!B1again', '!othertype', '!otherdim', '!wrongbase',
-           '!wrongcount', '!B3dupref', '!derivebase', '!NB2', '!P2']
+           '!wrongcount', '!B3dupref', '!derivebase', '!NB2', '!P2',
+           '!dupderive', '!dupterm']
 QUICK_INVALID = ['!dupsym', '!S2', '!othertype', '!otherdim', '!wrongbase',
-                 '!empty']
+                 '!empty', '!dupderive', '!dupterm']
 
 
 ROOTS = [[], ['B1', 'B2'], ['B1', 'B2', 'V', 'x1', 'y1'],
